@@ -116,6 +116,21 @@ func (pr *prepared) observe(silent bool) Obs {
 
 func (pr *prepared) orderOpen() bool { return orderOpen(pr.tree.Root, pr.doc, pr.vars) }
 
+// chainedKeyvalue reports whether the path has two or more .keyvalue() steps:
+// the class of open finding D30 (the ids of the second step differ from run to
+// run). Stability of ids is C16's statement; checks that compare two runs for
+// another reason ignore the ids of such paths.
+func (pr *prepared) chainedKeyvalue() bool {
+	n := 0
+	pr.tree.Root.Has(func(x *Node) bool {
+		if x.K == KMethod && x.S == "keyvalue" {
+			n++
+		}
+		return false
+	})
+	return n >= 2
+}
+
 // d9 reports whether err is the ErrInvalid of open finding D9 (a datetime
 // item compared with a non-datetime, non-null item).
 func isD9(err error) bool {
